@@ -64,7 +64,9 @@ impl Segment {
     }
 
     pub fn target_pc(&self) -> ProgramCounter {
-        ((self.pc.as_i64() + self.target_offset()) as usize).into()
+        // (never below zero: while the options of a segment are still settling, where it is and where it is meant to run may
+        // not fit together yet. Nothing can be emitted there, which is reported when it is tried.)
+        ((self.pc.as_i64() + self.target_offset()).max(0) as usize).into()
     }
 
     pub fn options(&self) -> &SegmentOptions {
